@@ -24,7 +24,7 @@ def check(run, only=None):
     else:
         r = common.run_tlc("C02", "C02_thorough" if run.tier == "thorough" else "C02", env={"VERIF_SEED": run.seed}, timeout=3000, heap="10g")
         vecs = r["lines"]
-    obs, hooks = common.run_pool(vecs, deadline_ms=3000)
+    obs, hooks = common.run_pool(vecs, deadline_ms=10000)
     run.hooks = hooks
     for v in vecs:
         o = obs[v["id"]]
